@@ -398,12 +398,20 @@ def _checktag_stream(ctx):
         exp = 'ret=%d out=%s' % (0 if eq else -1, hx(pl if eq else b'\x00' * len(pl)))
         if o != exp: ctx.fail('checktag', [l], o, exp, 'check_tag must return 0 and keep the plaintext iff the tags are equal, else -1 and zero it')
 
+def _check_tag_source(ctx):
+    """TJ.Props.C03Gen: the regenerated term of tinyjambu_aead_check_tag computes the model's checkTag for all tags, lengths and contents"""
+    import taint
+    ok, stats = taint.regenerate(ctx, ('TJ.Props.C03Gen',))
+    ctx.extra_cov['minic'] = {k: stats.get(k) for k in ('functions', 'translated', 'errors', 'build_ok')}
+    if stats.get('errors'): ctx.broken_proofs.append('tools/c2lean.py cannot translate the current sources: ' + '; '.join(stats['errors'][:3]))
+    elif not ok: ctx.broken_proofs.append('TJ.Props.C03Gen (regenerated tinyjambu_aead_check_tag = model checkTag) no longer checks: ' + re.sub(r'\s+', ' ', stats.get('build_log_tail', ''))[-600:])
+
 def check_C03(ctx):
-    ctx.lean(); ctx.build()
+    ctx.build(); _check_tag_source(ctx); ctx.lean(extra_modules=['TJ.Props.C03Gen'])
     _tamper(ctx, 'aead'); _checktag_stream(ctx)
 
 def check_C04(ctx):
-    ctx.lean(); ctx.build()
+    ctx.build(); _check_tag_source(ctx); ctx.lean(extra_modules=['TJ.Props.C03Gen'])
     _tamper(ctx, 'aead'); _tamper(ctx, 'siv'); _checktag_stream(ctx)
 
 def check_C08(ctx):
